@@ -16,5 +16,6 @@ for f in glob.glob(sd+'/*'):
     if os.path.isfile(f): shutil.copy(f,dst)
     elif os.path.isdir(f): shutil.copytree(f,os.path.join(dst,os.path.basename(f)),dirs_exist_ok=True)
 notes=open(sd+'/NOTES.md').read() if os.path.exists(sd+'/NOTES.md') else ''
-json.dump({'property':prop,'breaks':prop,'needs_to_manifest':notes[:1500],'confirmed':{k:res[k] for k in ('demo_without_change','applies','builds','demo_with_change_fail_runs','tests_run','existing_tests_output','cmd','place')},'detected_by':None},open(dst+'/meta.json','w'),indent=1)
+base=subprocess.run(['git','-C',wt,'rev-parse','--short','HEAD'],capture_output=True,text=True).stdout.strip()
+json.dump({'property':prop,'breaks':prop,'base':base,'needs_to_manifest':notes[:1500],'confirmed':{k:res[k] for k in ('demo_without_change','applies','builds','demo_with_change_fail_runs','tests_run','existing_tests_output','cmd','place')},'detected_by':None},open(dst+'/meta.json','w'),indent=1)
 print('KEPT',dst)
